@@ -236,7 +236,7 @@ func firstLine(s string) string {
 func TestProp(t *testing.T) {
 	vt.Main(t, vt.Spec[peng.Case]{
 		ID:           "C08",
-		Rule:         "rapid-generated cases: 1-4 nodes each in a generated state (healthy, down from the start, never answering = handler released and held, not reading = handler held without Release so the server stops reading the connection, not reading + a flood of 150-1200 background one-way messages of 1.5-6 KB - unicasts, or in a third of the floods multicasts to all nodes, with a context that lives on - that exhausts the flow-control window); 2-18 subject calls of all 20 kinds from 1-5 threads, every one with a context that ends (cancel after 1 us - 3 ms, deadline 1 us - 5 ms, pre-cancelled), send buffer 0/1/2/8; server-stream calls in 1 of 3 cases against endless streams with a slow quorum function that never reports done; in half of the cases seeded jitter at the statement-level yield points of the instrumented runtime; while the nodes still misbehave, every call whose context has ended must have returned / completed within the hang bound (confirmed by two goroutine dumps 10 s apart), and an error caused by the context end must match the context's error under errors.Is; non-trivial (measured) = a context ended while its call was unfinished and some node was down / not answering / not reading",
+		Rule:         "rapid-generated cases: 1-4 nodes each in a generated state (healthy, down from the start, never answering = handler released and held, not reading = handler held without Release so the server stops reading the connection, not reading + a flood of 150-1200 background one-way messages of 1.5-6 KB - unicasts, or in a third of the floods multicasts to all nodes, with a context that lives on - that exhausts the flow-control window); 2-18 subject calls of all 20 kinds from 1-5 threads, every one with a context that ends (cancel after 1 us - 3 ms, deadline 1 us - 5 ms, pre-cancelled), send buffer 0/1/2/8; server-stream calls in 1 of 3 cases against endless streams with a slow quorum function that never reports done; in half of the cases seeded jitter at the statement-level yield points of the instrumented runtime; while the nodes still misbehave, every call whose context has ended must have returned / completed within the hang bound (confirmed by two goroutine dumps 10 s apart), and an error caused by the context end must match the context's error under errors.Is; non-trivial (measured) = a context ended while its call was unfinished and some node was down / not answering / not reading; a further shape (about a tenth of the cases): a manager that dials with grpc.WithBlock (70 s dial timeout, created with FailOnNonTempDialError), a node that is down and whose address then stops answering connection attempts, and 2-4 calls with 20-300 ms deadlines in a row on it - calls made while the sender is inside the hanging dial return when their context ends",
 		Gen:          gen,
 		Run:          run,
 		TrackCurrent: true,
